@@ -70,7 +70,12 @@ from .constants import (
     TYPING_MODULE,
     UNION,
 )
-from .result_fields import FieldContext, is_union, parse_operation_field
+from .result_fields import (
+    FieldContext,
+    is_union,
+    parse_directives,
+    parse_operation_field,
+)
 from .scalars import ScalarData, generate_scalar_imports
 from .types import CodegenResultFieldType
 
@@ -267,6 +272,16 @@ class ResultTypesGenerator:
                 custom_scalars=self.custom_scalars,
                 fragments_definitions=self.fragments_definitions,
             )
+            if (
+                field.name.value == TYPENAME_FIELD_NAME
+                and typename_values
+                and not add_typename
+            ):
+                # a __typename under @skip/@include may be absent like any other
+                # field (not where it discriminates a union: add_typename)
+                annotation, default_value = parse_directives(
+                    annotation, field.directives
+                )
 
             field_implementation = generate_ann_assign(
                 target=generate_name(name),
